@@ -42,6 +42,17 @@ pub struct FullSync<'a, ItemType:          Send + Sync + Debug + Default,
 }
 
 
+/// verification hooks: gives the external harness access to the components (to name their shared cells)
+#[cfg(feature = "verif")]
+impl<'a, ItemType:          Send + Sync + Debug + Default + 'a,
+         const BUFFER_SIZE: usize,
+         const MAX_STREAMS: usize>
+FullSync<'a, ItemType, BUFFER_SIZE, MAX_STREAMS> {
+    pub fn verif_parts(&self) -> (&StreamsManagerBase<MAX_STREAMS>, &[FullSyncMove<Arc<ItemType>, BUFFER_SIZE>; MAX_STREAMS]) {
+        (&self.streams_manager, &self.channels)
+    }
+}
+
 impl<'a, ItemType:          Send + Sync + Debug + Default + 'a,
          const BUFFER_SIZE: usize,
          const MAX_STREAMS: usize>
